@@ -136,6 +136,23 @@ def dist2box1(L):
                   claims=[("ConvexFunction", {}), ("SmoothConvexFunction", {"L": L}), ("ConvexQGFunction", {"L": L})])
 
 
+def kinkquad1(L):
+    # L/4 x^2 on [-1, 1], L/2 x^2 - L/4 outside: convex, below L/2 x^2 (QG+), NOT differentiable at +-1
+    def val(x):
+        t = abs(x[0])
+        return L / 4 * t * t if t <= 1 else L / 2 * t * t - L / 4
+
+    def gr(x):
+        t = x[0]
+        if abs(abs(t) - 1.0) < 1e-12:
+            sg = 1.0 if t > 0 else -1.0
+            return [v(sg * L / 2), v(sg * 3 * L / 4), v(sg * L)]
+        return [v(L / 2 * t)] if abs(t) < 1 else [v(L * t)]
+    return Member("kinkquad1(%g)" % L, 1, value=val, grads=gr, stationary=[v(0)], dist_opt=lambda x: abs(x[0]), proj_opt=lambda x: v(0),
+                  claims=[("ConvexFunction", {}), ("ConvexQGFunction", {"L": L}), ("ConvexQGFunction", {"L": 2 * L}),
+                          ("StronglyConvexFunction", {"mu": L / 2})])
+
+
 def scabs1(mu, M):
     return Member("scabs1(%g,%g)" % (mu, M), 1, value=lambda x: mu / 2 * x[0] ** 2 + M * abs(x[0]),
                   grads=lambda x: [v(mu * x[0] + t) for t in sgn_sel(x[0], -M, M)], stationary=[v(0)],
@@ -368,7 +385,7 @@ J = [[0.0, -1.0], [1.0, 0.0]]
 ALL = [
     quad1(0.1), quad1(0.5), quad1(1.0), quad1(2.0), quad1(0.0), quad1(-1.0), shifted_quad1(1.0, 1.0, 0.5), shifted_quad1(0.5, -1.0, -2.0),
     lin1(1.0), lin1(0.5), lin1(0.0), abs1(1.0), abs1(2.0), relu1(1.0), huber1(1.0, 1.0), huber1(2.0, 0.5), huber1(1.0, 3.0), sqrelu1(1.0), sqrelu1(2.0),
-    dist2box1(1.0), scabs1(0.1, 1.0), scabs1(1.0, 0.5), cos1(1.0), cos1(2.0), rsi_nonconvex1(),
+    dist2box1(1.0), kinkquad1(2.0), kinkquad1(1.0), scabs1(0.1, 1.0), scabs1(1.0, 0.5), cos1(1.0), cos1(2.0), rsi_nonconvex1(),
     quad2([[0.1, 0], [0, 1.0]]), quad2([[1.0, 0.5], [0.5, 2.0]]), quad2([[0.55, 0.45], [0.45, 0.55]]), quad2([[1.0, 0], [0, 0.0]]),
     quad2([[2.0, 0], [0, 2.0]]), l1_2(), norm2(1.0), norm2(2.0), sc_relu2(0.1), sc_relu2(1.0), sep_huber2(1.0, 2.0),
     ind_interval(-1.0, 1.0), ind_interval(0.0, 1.0), ind_interval(0.0, 0.0), ind_box2(), ind_disc2(),
